@@ -98,6 +98,8 @@ def run_matrix(case, R):
     try:
         mp = pa._mapping_from_score_matrix(sm, algorithm=case['alg'])
     except Exception as e:
+        if not instr.is_library_exception(e):
+            raise
         R.fail('C14.perm', f'score-assignment/{case["alg"]}/raised', f'_mapping_from_score_matrix raised {type(e).__name__} on a finite matrix: {str(e)[:100]}', dtype=dt)
         return
     R.check('C14.apply', np.array_equal(sm, before), 'purity/score-matrix-modified', 'the score matrix was modified')
@@ -160,6 +162,8 @@ def run_aligner(case, R):
         mapping = al.calculate_mapping(mask, *args)
         aligned = al(mask, *args)
     except Exception as e:
+        if not instr.is_library_exception(e):
+            raise
         R.count(f'{which} raised {type(e).__name__}: {str(e)[:70]}')
         R.ok('C14.raised')
         return
@@ -195,6 +199,8 @@ def run_inline(case, R):
         with instr.options(**s.copts), instr.capture() as ev:
             scen.fit(s)
     except Exception as e:
+        if not instr.is_library_exception(e):
+            raise
         R.count(f'fit with inline aligner raised {type(e).__name__}: {str(e)[:70]}')
         R.ok('C14.raised')
         return
@@ -242,6 +248,8 @@ def run_builtin(case, R):
     try:
         got = mmu.log_pdf_to_affiliation_for_integration_models_with_inline_pa(w, spatial.copy(), spectral.copy(), affiliation_eps=eps)
     except Exception as e:
+        if not instr.is_library_exception(e):
+            raise
         R.fail('C14.builtin', 'builtin/raised', f'{type(e).__name__}: {str(e)[:100]}')
         return
     wb = np.broadcast_to(w, (F, K, T))
